@@ -216,7 +216,7 @@ func cmdLocals(args []string) int {
 					key, _, _, err := parseFuncSig(strings.TrimSpace(strings.TrimPrefix(t, "//@ func ")), c.Pkg)
 					if err == nil && key == c.Key {
 						if fn := e.lookupFunc(c.Key); fn != nil {
-							out = append(out, "//@   locals "+strings.Join(namedLocals(fn), " "))
+							out = append(out, "//@   locals "+strings.Join(namedLocalsTyped(fn), " "))
 						}
 					}
 				}
